@@ -82,9 +82,12 @@ def run(tier, seed, replay=None):
         profiles.append("release")
 
     text_cases, json_cases, sweeps = [], [], []
+    deep_cases, deep_json = [], []
     dist = dict(corpus=0, valid=0, random_mutants=0, exhaustive_mutants=0, json_valid=0, json_mutants=0)
     if replay:
         r = json.load(open(replay))
+        if "text_hex" in r:
+            r["text"] = bytes.fromhex(r["text_hex"]).decode("utf-8")
         if r.get("kind") == "json":
             json_cases = [(r["type"], r["text"])]
         elif "type" in r and "text" in r:
@@ -145,10 +148,25 @@ def run(tier, seed, replay=None):
                 json_cases.append((ty, m))
                 dist["json_struct_mutants"] = dist.get("json_struct_mutants", 0) + 1
         sweeps = SWEEPS_QUICK if tier == "quick" else SWEEPS_ALL
+        # deep nesting (implementation only, judged only): thousands to a million unbalanced openers after every
+        # structural opener of a valid encoding - a recursive scanner overflows the stack (abort, not a panic)
+        for ty, s in shorts + [c for c in valid if c[0] in ("level", "queue", "txlist", "mr")][:6]:
+            if not any(ch in s for ch in "[("):
+                continue
+            pos = [i + 1 for i, ch in enumerate(s) if ch in "[("][:4]
+            for K in ((3000, 300000) if tier == "quick" else (3000, 60000, 300000, 1000000)):
+                for op in "[(":
+                    for i in ([pos[0], rng.choice(pos)] if K > 3000 else [rng.choice(pos + [0])]):
+                        deep_cases.append((ty, s[:i] + op * K + s[i:]))
+        for ty, s in jvalid[:4]:
+            for op in ("[", "{\"a\":"):
+                i = max(s.find("["), s.find("{")) + 1
+                deep_json.append((ty, s[:i] + op * 200000 + s[i:]))
 
     # distinct
     text_cases = list(dict.fromkeys(text_cases))
     json_cases = list(dict.fromkeys(json_cases))
+    dist["deep_nesting"] = len(deep_cases) + len(deep_json)
     ck.extra["input_distribution"] = dist
 
     corr_bad, judge_bad = [], []
@@ -166,6 +184,18 @@ def run(tier, seed, replay=None):
                                       profile=prof, why="from_str did not return Ok or Err"))
             if a != "unrun" and tg.canon(ty, a) != tg.canon(ty, m):
                 corr_bad.append(dict(kind="text", type=ty, text=s, text_hex=tg.hexs(s), implementation=a, model=m, profile=prof))
+        da = tg.run_side("impl", ["PARSE %s %s" % (ty, tg.hexs(s)) for ty, s in deep_cases], profile=prof)
+        for (ty, s), a in zip(deep_cases, da):
+            evals += 1
+            if bad_verdict(a):
+                judge_bad.append(dict(kind="text", type=ty, text=s[:60] + "...(%d characters)" % len(s), text_hex=tg.hexs(s), implementation=a,
+                                      profile=prof, why="from_str did not return Ok or Err on a deeply nested input (%d characters)" % len(s)))
+        dj = tg.run_side("impl", ["JSON %s %s" % (ty, tg.hexs(s)) for ty, s in deep_json], profile=prof)
+        for (ty, s), a in zip(deep_json, dj):
+            evals += 1
+            if a not in ("ok", "err"):
+                judge_bad.append(dict(kind="json", type=ty, text=s[:60] + "...(%d characters)" % len(s), text_hex=tg.hexs(s), implementation=a,
+                                      profile=prof, why="serde_json::from_str did not return Ok or Err on a deeply nested input"))
         jc = ["JSON %s %s" % (ty, tg.hexs(s)) for ty, s in json_cases]
         ja = tg.run_side("impl", jc, profile=prof)
         for (ty, s), a in zip(json_cases, ja):
